@@ -138,7 +138,7 @@ func Solve(tr *TargetResult, opts *SolveOpts) []*OblResult {
 	for i, o := range tr.Obls {
 		results[i] = &OblResult{Obl: o, Status: "unknown"}
 		if opts.CacheDir != "" {
-			if data, err := os.ReadFile(filepath.Join(opts.CacheDir, hashOf(base, o.Cond))); err == nil {
+			if data, err := os.ReadFile(filepath.Join(opts.CacheDir, hashOf(tr.ScriptFor(o.Cond), o.Cond))); err == nil {
 				parts := strings.Fields(string(data))
 				if len(parts) >= 2 && (parts[0] == "unsat" || (o.Cover && parts[0] == "sat")) {
 					results[i].Status, results[i].Solver, results[i].Cached = parts[0], parts[1], true
@@ -150,6 +150,18 @@ func Solve(tr *TargetResult, opts *SolveOpts) []*OblResult {
 	}
 	if len(pending) == 0 {
 		return results
+	}
+	if opts.CacheDir != "" {
+		first := append([]int{}, pending...)
+		defer func() {
+			os.MkdirAll(opts.CacheDir, 0o755)
+			for _, i := range first {
+				r := results[i]
+				if r.Status == "unsat" || (r.Obl.Cover && r.Status == "sat") {
+					os.WriteFile(filepath.Join(opts.CacheDir, hashOf(tr.ScriptFor(r.Obl.Cond), r.Obl.Cond)), []byte(r.Status+" "+r.Solver+"\n"), 0o644)
+				}
+			}
+		}()
 	}
 	tag := hashOf(tr.Name, base)[:12]
 	// phase 0: one incremental z3-new process over all pending obligations (push/assert/check/pop)
@@ -309,15 +321,6 @@ func Solve(tr *TargetResult, opts *SolveOpts) []*OblResult {
 		}()
 	}
 	wg.Wait()
-	if opts.CacheDir != "" {
-		os.MkdirAll(opts.CacheDir, 0o755)
-		for _, i := range pending {
-			r := results[i]
-			if r.Status == "unsat" || (r.Obl.Cover && r.Status == "sat") {
-				os.WriteFile(filepath.Join(opts.CacheDir, hashOf(base, r.Obl.Cond)), []byte(r.Status+" "+r.Solver+"\n"), 0o644)
-			}
-		}
-	}
 	return results
 }
 
